@@ -68,6 +68,8 @@ def run_path(kernel, params, prefix, vals, opts, trace=False):
     except OutOfModel as e:
         res['status'] = 'oom'
         res['oom'] = str(e)
+        if os.environ.get('SX_DEBUG_OOM'):
+            res['oom'] += ' @ ' + ' <- '.join('%s:%d' % (f.filename.split('/')[-1], f.lineno) for f in traceback.extract_tb(e.__traceback__)[-6:][::-1])
     except Infeasible:
         res['status'] = 'vacuous'
     except symapi.Cut as e:
